@@ -357,6 +357,22 @@ UNITS = [
 ] + C06_adaptive.UNITS
 
 
+def replay(o):
+    """refuted obligations are universally quantified over states, step sizes and right-hand sides: the
+    native driver exercises the same steppers (fixed and adaptive, autonomous and time dependent, both
+    backends); a native failure of the matching family is the replayed violation"""
+    from ..runner import native
+
+    res = native("steppers.py", {"seed": 1, "reps": 2}, timeout=3000)
+    if not res.get("ok"):
+        return {"reproduced": None, "error": res}
+    adaptive = "adaptive" in o["name"]
+    hits = [f for f in res["failures"] if f["id"].startswith("adaptive") == adaptive] or res["failures"]
+    if hits:
+        return {"reproduced": True, "native": hits[0]}
+    return {"reproduced": False, "note": "the native solver runs matched the schemes"}
+
+
 def bounded(tier, seed):
     """bounded stand-in (NOT counted as proved): eq.solve with every fixed-step solver on both backends on
     du/dt = a*u + b*t (real and complex a), with and without an interrupting tracker"""
@@ -366,7 +382,7 @@ def bounded(tier, seed):
     res = native("steppers.py", {"seed": seed, "reps": reps}, timeout=3000)
     if not res.get("ok"):
         raise RuntimeError(f"native driver failed: {res}")
-    return [{"name": "solvers_vs_amplification_factor", "bound": f"5 solvers x 2 backends x {reps} random (a, b, dt, steps, t_start, state) instances on UnitGrid([3]); adaptive euler / runge-kutta on both backends: t_final = t_end and global error <= accepted steps x tolerance",
+    return [{"name": "solvers_vs_amplification_factor", "bound": f"5 solvers x 2 backends x {reps} random (a, b, dt, steps, t_start, state) instances on UnitGrid([3]); adaptive euler / runge-kutta on both backends: t_final = t_end and global error <= accepted steps x tolerance (autonomous and time-dependent right-hand sides), RKF45 evaluation times and exact quadrature of cubics",
              "cases": res["cases"], "failures": res["failures"]}]
 
 
